@@ -280,9 +280,7 @@ def _case_hist(ctx, case, h, d):
             y = apply_step(y, st)
         except (ValueError, TypeError, ZeroDivisionError) as e:
             ctx.count('hist', f'raises:{type(e).__name__}')
-            sig = 'TreeNeuron.convert_units/per-axis-units/raises' if st['t'] == 'convert' and not was_iso else None
-            ctx.oracle(False, f'history {hd}: step {step_desc(st)} raised {type(e).__name__}: {e} on units {y.units!r}', case,
-                       signature=sig)
+            ctx.oracle(False, f'history {hd}: step {step_desc(st)} raised {type(e).__name__}: {e} on units {y.units!r}', case)
             return
         if st['t'] == 'warm':
             steps_wire.append('w:' + ','.join(present_caches(y)))
@@ -437,10 +435,11 @@ def gen_hist(r, backend, idx=None):
             if r.random() < 0.8:
                 f = {'shape': 's', 'vals': [r.choice(HIST_SCAL)], 'cont': r.choice(['num', 'num', 'np.float64'])}
             else:
-                v = [r.choice([2, 0.5, 4, 1, 8]) for _ in range(4)]
+                nv = r.choice([4, 4, 3])          # x/y/z/radius, or x/y/z only (navis 549685a)
+                v = [r.choice([2, 0.5, 4, 1, 8]) for _ in range(nv)]
                 if r.random() < 0.3:
-                    v = [v[0]] * 4
-                f = {'shape': 'v4', 'vals': v, 'cont': r.choice(['list', 'tuple', 'array'])}
+                    v = [v[0]] * nv
+                f = {'shape': f'v{nv}', 'vals': v, 'cont': r.choice(['list', 'tuple', 'array'])}
             steps.append({'t': t, 'f': f, 'inplace': r.random() < 0.35})
         elif q < 0.85:
             t = r.choice(['add', 'sub'])
@@ -776,10 +775,8 @@ def case_mapx(ctx, case):
             same = r_ign[0] == 'ok' and (str(r_ign[1]) == str(pint.Quantity(obj)) if isinstance(obj, str) else r_ign[1] == obj)
             ctx.oracle(same, f'map_units({L!r}, on_error="ignore") on units {x.units!r} must return the argument unchanged, got {r_ign}', case)
         else:
-            sig = 'map_units/non-positive-length/math-domain-error' if (phys is not None and phys <= 0 and r_raise[0] == 'ERR'
-                                                                         and r_raise == r_ign) else None
             ctx.oracle(r_raise == r_ign and r_raise[0] == 'ok', f'map_units({L!r}): raises / on_error changes the result on a neuron '
-                                                               f'with isometric units {x.units!r}: {r_raise} vs {r_ign}', case, signature=sig)
+                                                               f'with isometric units {x.units!r}: {r_raise} vs {r_ign}', case)
         try:
             x.map_units(obj, on_error='nonsense')
             ctx.oracle(False, 'map_units(on_error="nonsense") did not raise', case)
@@ -804,11 +801,13 @@ def case_mapx(ctx, case):
             if isinstance(a, pint.Quantity):
                 a = a.magnitude
             ctx.oracle(abs(float(a) - float(b)) <= 1e-12 * abs(float(b)), f'map_units(ureg.{un}) = {a} but map_units("1 {un}") = {b} on {x.units!r}', case)
+            ans = h.kv(ctx.ask(f"c15.map q:1@{h.unit_exp(getattr(ureg, un))} {h.TOL} | {h.units_wire(x)} | {h.rs(a)}"))
+            ctx.corr('ok', ans.get('corr'), f'map_units(ureg.{un}) on {x.units!r} = {a} vs Lean mapUnits of 1 {un}: {ans.get("model")}', case)
         except (ValueError, AttributeError, pint.errors.DimensionalityError) as e:
-            sig = 'map_units/pint.Unit-argument/AttributeError' if isinstance(e, AttributeError) and "no attribute 'to'" in str(e) else None
+            # a bare unit is one of that unit (navis 2cd2fee; before: AttributeError 'Unit' object has no attribute 'to')
             ctx.oracle(bool(x.units.dimensionless) or not x.is_isometric,
                        f'map_units(ureg.{un}) raised {type(e).__name__}: {e} on {x.units!r} (a pint.Unit is a documented argument type)',
-                       case, signature=sig)
+                       case)
 
 
 def gen_mapx(r, i):
@@ -911,9 +910,8 @@ def case_strzero(ctx, case):
             # the numeric argument is rejected too (e.g. a negative depth): the string only has to be rejected as well
             ctx.oracle(rs_[0] == 'ERR', f'{fn}(x, {num}) raises {rn[1]} but {fn}(x, {s!r}) is accepted on units {A.units!r}', case)
             return
-        sig = 'map_units/non-positive-length/math-domain-error' if metres <= 0 and rs_[0] == 'ERR' and 'math domain' in rs_[2] else None
         ctx.oracle(rs_ == rn, f'{fn}(x, {s!r}) on units {A.units!r} behaves differently from the numeric argument {num}: '
-                              f'{_short(rs_)} vs {_short(rn)}', case, signature=sig)
+                              f'{_short(rs_)} vs {_short(rn)}', case)
 
 
 def gen_strzero(r, i):
